@@ -65,11 +65,19 @@ pub fn expand_key(k: &Key) -> (&'static str, String) {
         Ok(t) => t,
         Err(e) => return ("LEX", e.to_string()),
     };
+    // the real entry function: parse (panics on failure), expand, `Output::process`
     match dm_shadow::expand(&k.derive, ts) {
         None => ("NODERIVE", String::new()),
-        Some(Ok(t)) => ("OK", t.to_string()),
-        // a diagnostic is a token sequence the user sees, too
-        Some(Err(e)) => ("ERR", e.to_compile_error().to_string()),
+        Some(t) => {
+            let text = t.to_string();
+            // a diagnostic is a token sequence the user sees, too (`::core::compile_error!{..}`)
+            let head: String = text.chars().filter(|c| !c.is_whitespace()).take(24).collect();
+            if head.starts_with("::core::compile_error!") || head.starts_with("compile_error!") {
+                ("ERR", text)
+            } else {
+                ("OK", text)
+            }
+        }
     }
 }
 
